@@ -215,7 +215,7 @@ def analyse(rep, prop, v, ops, order=2, margin=3):
 QUICK = [(v, op, 2, 6) for v in ("SO2", "SE2") for op in OPS] + \
         [("SO3", op, 2, 3) for op in ("inverse", "compose", "between", "act")] + [("SO3", op, 2, 6) for op in ("exp", "log", "rminus")]
 THOROUGH_EXTRA = [("SO3", "rplus", 2, 7), ("SO3", "lplus", 2, 7), ("SO3", "lminus", 2, 6),
-                  ("SE3", "inverse", 2, 3), ("SE3", "between", 2, 3), ("SE3", "act", 2, 3)]
+                  ("SE3", "inverse", 2, 3), ("SE3", "between", 2, 3), ("SE3", "act", 2, 3), ("SE3", "exp", 2, 7)]
 
 
 class _Collector:
